@@ -204,7 +204,7 @@ func (v Value) Slice(i, j int) Value {
 	if v.value != nil || i != 0 || j != 0 {
 		return v.value.Slice(i, j)
 	}
-	return newSlice(v.t.value(), nil)
+	return Value{t: v.t} // s[0:0] of a nil slice is the nil slice
 }
 func (v Value) GetAttr(key string) Value        { return v.value.GetAttr(key) }
 func (v Value) SetAttr(key string, value Value) { v.value.SetAttr(key, value) }
